@@ -49,7 +49,9 @@ func c07StrMap(m map[string]interface{}) map[string]string {
 func c07StampOne(r eng.Res, rn, ns string, force bool) c07Stamp {
 	st := c07Stamp{RN: rn, NS: ns, Force: force}
 	st.Labels, st.Annots = c07SplitMeta(r.Fields)
-	mk := func() *unstructured.Unstructured { return &unstructured.Unstructured{Object: sim.Object(r.Kind, r.Name, r.Fields)} }
+	mk := func() *unstructured.Unstructured {
+		return &unstructured.Unstructured{Object: sim.Object(r.Kind, r.Name, r.Fields)}
+	}
 	st.Owned = action.VerifCheckOwnership(mk(), rn, ns) == nil
 	u := mk()
 	if err := action.VerifSetMetadata(u, r.Kind, r.Name, "default", rn, ns, force); err != nil {
@@ -312,4 +314,80 @@ func c07Ledger(inner driver.Driver) []eng.LedgerRow {
 	}
 	sort.Slice(out, func(i, j int) bool { return out[i].Rev < out[j].Rev })
 	return out
+}
+
+// c07CoqIntr: per step, the intruder of the operation (Engine/OwnershipRace.v)
+func c07CoqIntr(c c07Case) string {
+	var it []string
+	for _, s := range c.H.Steps {
+		if s.Op == nil || s.Op.Intr == nil {
+			it = append(it, "None")
+			continue
+		}
+		when := "IPost"
+		if s.Op.Intr.When == "get404" {
+			when = fmt.Sprintf("(IGet404 %d)", s.Op.Intr.Nth)
+		}
+		it = append(it, fmt.Sprintf("(Some (mkIntr %s %s %s))", hx.CoqStr(s.Op.Intr.Obj.Key()), when, c07CoqStrMap(s.Op.Intr.Obj.Fields)))
+	}
+	return hx.CoqList(it)
+}
+
+// clause 7 of the oracle.  "Helm never takes over ... a resource ... that already exists and is not
+// labelled as belonging to this release, unless take-ownership": when another actor created an
+// object at a key the operation was about to create (after Helm's look-up answered "not found",
+// before Helm's POST), the operation must not report success without take-ownership, and the
+// foreign object must be left exactly as the other actor made it (with take-ownership: or be adopted,
+// i.e. carry this release's ownership metadata).  And, for every operation of the history: after a
+// reported success every object at a key of the deployed revision's manifest carries the metadata.
+func c07RaceOracle(c c07Case, o c07Obs, add func(sig, what string)) {
+	for i, s := range c.H.Steps {
+		if s.Op == nil || i >= len(o.Obs.Steps) {
+			continue
+		}
+		op, t := s.Op, o.Obs.Steps[i]
+		if t.Outcome == "ok" && !op.Flags.IsDry() && op.Kind != "uninstall" {
+			hookKeys := map[string]bool{}
+			var mani []eng.Res
+			for j := len(t.Ledger) - 1; j >= 0; j-- {
+				if t.Ledger[j].Status == "deployed" && mani == nil {
+					mani = t.Ledger[j].Manifest
+				}
+				for _, h := range t.Ledger[j].Hooks {
+					hookKeys[h.Res.Key()] = true
+				}
+			}
+			for _, m := range mani {
+				if live, ok := t.Objs[m.Key()]; ok && !hookKeys[m.Key()] && !c07Owned(live) {
+					add("C07:deployed-manifest-object-not-owned", fmt.Sprintf("step %d (%s, scenario %s) reported success, but %s of the deployed manifest is %v: not this release's",
+						i, op.Kind, c.Scenario, m.Key(), live))
+				}
+			}
+		}
+		if op.Intr == nil || !t.IntrFired {
+			continue
+		}
+		k := op.Intr.Obj.Key()
+		what := fmt.Sprintf("step %d (%s, scenario %s, %s): another actor created %s %s", i, op.Kind, c.Scenario, c.Intr, k,
+			map[string]string{"get404": fmt.Sprintf("after GET #%d of it was answered 404", op.Intr.Nth), "post": "just before Helm's POST"}[op.Intr.When])
+		if t.Outcome == "ok" && !op.Flags.TakeOwnership {
+			add("C07:raced-create-reported-success", what+"; the operation reported success")
+		}
+		after, there := t.Objs[k]
+		if there && reflect.DeepEqual(after, op.Intr.Obj.Fields) {
+			continue // untouched
+		}
+		if op.Flags.TakeOwnership && there && c07Owned(after) {
+			continue // adopted, as requested
+		}
+		how := "cleanup-on-fail"
+		if op.Flags.Atomic {
+			how = "atomic"
+		}
+		if !there {
+			add(fmt.Sprintf("C07:raced-foreign-object-deleted-by-failure-cleanup/%s/%s", op.Kind, how), what+"; the operation failed and its clean-up DELETED that object, which Helm neither created nor owns")
+		} else {
+			add("C07:raced-foreign-object-changed", fmt.Sprintf("%s; afterwards it is %v", what, after))
+		}
+	}
 }
